@@ -678,12 +678,123 @@ def area_reply(rng, z, n_cases):
     return "\n\n".join(defs), exprs, exp
 
 
-AREAS = {"Reply": area_reply, "Sched": area_sched, "History": area_history, "Registry": area_registry, "Cache": area_cache, "Dns": area_dns, "Queue": area_queue}
+def area_listener(rng, z, n_cases):
+    """`AsyncListener`: the real methods on an object built without `__init__` (fake loop / query handler / `random`), against the
+    generated functions; compared: the effects of every call and the two dicts afterwards"""
+    import zeroconf._listener as lm
+
+    AL = "GenFn.Listener.AsyncListener"
+
+    def lean_msg(mi):
+        data, now, trunc = mi
+        return "(({ valid := true, isQuery := true, truncated := %s, hasQU := false } : Zc.Listener.MsgInfo), ({ data := %s, now := %d } : Zc.Listener.Packet))" % (
+            "true" if trunc else "false", lbytes(data), now)
+
+    defs, exprs, exp = [], [], []
+    for ci in range(n_cases):
+        effects = []
+
+        class Handle:
+            def __init__(self, when, port):
+                self.when, self.port = when, port
+
+            def cancel(self):
+                effects.append("cancel%d:%d" % (self.when, self.port))
+
+        class Loop:
+            now_ms = 0
+
+            def time(self):
+                return self.now_ms / 1000.0
+
+            def call_at(self, when, cb, *args):
+                assert cb == lis._respond_query and args[0] is None
+                effects.append("at%d:%s:%d" % (round(when * 1000), args[1], args[2]))
+                return Handle(round(when * 1000), args[2])
+
+        class Zc:
+            loop = Loop()
+
+        class QH:
+            def handle_assembled_query(self, packets, addr, port, transport, v6):
+                effects.append("asm[%s]:%s:%d" % (",".join(str(p.data[0]) for p in packets), addr, port))
+
+        class Msg:
+            def __init__(self, data, trunc):
+                self.data, self.truncated = bytes(data), trunc
+
+            def __bool__(self):
+                return True
+
+        class Rnd:
+            draw = 0
+
+            @staticmethod
+            def randint(lo, hi):
+                return Rnd.draw if (lo, hi) == (400, 500) else -1
+
+        lis = lm.AsyncListener.__new__(lm.AsyncListener)
+        lis.zc, lis._query_handler, lis._deferred, lis._timers = Zc(), QH(), {}, {}
+        lm.random = Rnd
+        out = []
+        L = ["def listenerCase%d : String := Id.run do" % ci, "  let mut out : List String := []",
+             "  let mut q : %s := { zc := (), query_handler := (), deferred := [], timers := [] }" % AL]
+        t = 1000
+        for _ in range(rng.randint(2, 8)):
+            t += rng.choice([0, 1, 50, 450, 600])
+            addr = rng.choice(["10.0.0.1", "10.0.0.2"])
+            port = rng.choice([5353, 40000])
+            k = rng.choice(["h", "h", "h", "r", "rn", "c"])
+            mi = ((rng.randrange(1, 5),), t, rng.random() < 0.7)
+            draw = rng.randint(400, 500)
+            Rnd.draw, Zc.loop.now_ms = draw, t
+            del effects[:]
+            try:
+                if k == "h":
+                    lis.handle_query_or_defer(Msg(mi[0], mi[2]), addr, port, None, ())
+                    call = "%s.handle_query_or_defer q %s %s %d () () (fun lo hi => if lo == 400 && hi == 500 then %d else -1) %d" % (AL, lean_msg(mi), lstr(addr), port, draw, t)
+                elif k == "r":
+                    lis._respond_query(Msg(mi[0], mi[2]), addr, port, None, ())
+                    call = "%s.respond_query q (some %s) %s %d () ()" % (AL, lean_msg(mi), lstr(addr), port)
+                elif k == "rn":
+                    lis._respond_query(None, addr, port, None, ())
+                    call = "%s.respond_query q none %s %d () ()" % (AL, lstr(addr), port)
+                else:
+                    lis._cancel_any_timers_for_addr(addr)
+                    call = "%s.cancel_any_timers_for_addr q %s" % (AL, lstr(addr))
+                out.append(k + ";".join(effects))
+            except Exception as ex:  # noqa: BLE001
+                out.append("!" + exc_name(ex))
+                call = None
+            if call is None:
+                break
+            L += ["  match %s with" % call, "  | .ok p => do q := p.1; out := out ++ [\"%s\" ++ showLEff p.2]" % k,
+                  "  | .error e => return \" \".intercalate (out ++ [\"!\" ++ e.name])"]
+        out.append("D:" + "|".join("%s=%s" % (a, ",".join(str(m.data[0]) for m in ms)) for a, ms in lis._deferred.items())
+                   + " T:" + "|".join("%s=%d:%d" % (a, h.when, h.port) for a, h in lis._timers.items()))
+        L.append("  out := out ++ [\"D:\" ++ \"|\".intercalate (q.deferred.map (fun e => e.1 ++ \"=\" ++ \",\".intercalate (e.2.map (fun m => toString (m.2.data.headD 0))))) "
+                 "++ \" T:\" ++ \"|\".intercalate (q.timers.map (fun e => e.1 ++ \"=\" ++ toString e.2.due ++ \":\" ++ toString e.2.port))]")
+        L.append("  return \" \".intercalate out")
+        exp.append(" ".join(out))
+        defs.append("\n".join(L))
+        exprs.append("listenerCase%d" % ci)
+    return "\n\n".join(defs), exprs, exp
+
+
+AREAS = {"Listener": area_listener, "Reply": area_reply, "Sched": area_sched, "History": area_history, "Registry": area_registry, "Cache": area_cache, "Dns": area_dns, "Queue": area_queue}
 
 
 QUEUE_PRELUDE = r'''
 def showEff (l : List GenFn.Queue.QEffect) : String :=
   ";".intercalate (l.map (fun e => match e with | .callAt t => "at" ++ toString t | .send a => "send" ++ showAns a))
+'''
+
+LISTENER_PRELUDE = r'''
+def showLEff (l : List GenFn.Listener.LEffect) : String :=
+  ";".intercalate (l.map (fun e => match e with
+    | .callAt w a p => "at" ++ toString w ++ ":" ++ a ++ ":" ++ toString p
+    | .cancel h => "cancel" ++ toString h.due ++ ":" ++ toString h.port
+    | .assembled ps a p => "asm[" ++ ",".intercalate (ps.map (fun m => toString (m.2.data.headD 0))) ++ "]:" ++ a ++ ":" ++ toString p))
 '''
 
 SCHED_PRELUDE = r'''
@@ -730,6 +841,7 @@ def emit(repo, areas):
         owner += [area] * len(e)
     lean = "\n".join(imports) + "\nimport Zc.Py.Model\nimport Zc.Model.Registry\n" + PRELUDE + (QUEUE_PRELUDE if "import Zc.GenFn.Queue" in imports else "") + \
         (SCHED_PRELUDE if "import Zc.GenFn.Sched" in imports else "") + \
+        (LISTENER_PRELUDE if "import Zc.GenFn.Listener" in imports else "") + \
         "\n" + "\n\n".join(defs) + "\n\n" + \
         "\n".join('#eval IO.println ("=== " ++ %s)' % e for e in exprs) + "\n"
     json.dump({"lean": lean, "expected": expected, "owner": owner}, sys.stdout)
